@@ -2,8 +2,9 @@
 usage: verify_twin.py C03 1 [--all]   (--all: every property's check, default: the property's own and those sharing files)"""
 import json, os, subprocess, sys
 pid, k = sys.argv[1], sys.argv[2]
-wt = f"/tmp/wt/{pid}"
-diff = f"/tmp/twin_out/{pid}/twin{k}.diff"
+root = sys.argv[sys.argv.index("--src") + 1] if "--src" in sys.argv else "/tmp/twin_out"
+wt = (sys.argv[sys.argv.index("--wt") + 1] if "--wt" in sys.argv else "/tmp/wt") + f"/{pid}"
+diff = f"{root}/{pid}/twin{k}.diff"
 def sh(cmd, **kw):
     return subprocess.run(cmd, shell=True, capture_output=True, text=True, **kw)
 sh(f"git -C {wt} checkout -- . && git -C {wt} clean -fdq")
